@@ -7,7 +7,9 @@
 *)
 EXTENDS Integers, FiniteSets, TLC
 CONSTANTS Calls,               \* [call name -> -1 (automatic id) or an explicit id]
-          Fix_RegisterAtomic, Fix_ExplicitCheck
+          Failing,             \* calls whose process cannot be started (create_io / bootstrap raises)
+          Fix_RegisterAtomic, Fix_ExplicitCheck,
+          GiveBackOnFailure    \* TRUE: a mutant that decrements the automatic counter when the creation fails
 VARIABLES counter, lock, live, pc, myid, procs, leaked
 vars == <<counter, lock, live, pc, myid, procs, leaked>>
 C == DOMAIN Calls
@@ -22,8 +24,12 @@ Allocate(c) ==        \* allocate_id, one critical section
      ELSE IF Fix_ExplicitCheck /\ Calls[c] \in LiveIds THEN pc' = [pc EXCEPT ![c] = "failed"] /\ UNCHANGED <<myid, counter>>
      ELSE myid' = [myid EXCEPT ![c] = Calls[c]] /\ pc' = [pc EXCEPT ![c] = "spawn"] /\ UNCHANGED counter
   /\ UNCHANGED <<lock, live, procs, leaked>>
-Spawn(c) == /\ pc[c] = "spawn" /\ procs' = procs \cup {c} /\ pc' = [pc EXCEPT ![c] = "check"]
+Spawn(c) == /\ pc[c] = "spawn" /\ c \notin Failing /\ procs' = procs \cup {c} /\ pc' = [pc EXCEPT ![c] = "check"]
             /\ UNCHANGED <<counter, lock, live, myid, leaked>>
+SpawnFails(c) ==      \* the process could not be started: the call fails, its id stays consumed
+  /\ pc[c] = "spawn" /\ c \in Failing /\ pc' = [pc EXCEPT ![c] = "failed"]
+  /\ counter' = IF GiveBackOnFailure /\ Calls[c] = -1 THEN counter - 1 ELSE counter
+  /\ UNCHANGED <<lock, live, myid, procs, leaked>>
 Check(c) ==           \* assert gateway.id not in self
   /\ pc[c] = "check" /\ (Fix_RegisterAtomic => lock = "none")
   /\ IF myid[c] \in LiveIds THEN pc' = [pc EXCEPT ![c] = "failed"] /\ leaked' = leaked \cup {c} /\ UNCHANGED <<live, lock>>
@@ -34,7 +40,7 @@ Append(c) == /\ pc[c] = "append" /\ live' = live \cup {<<c, myid[c]>>} /\ pc' = 
              /\ UNCHANGED <<counter, lock, myid, procs, leaked>>
 Exit(c) == /\ pc[c] = "live" /\ live' = live \ {<<c, myid[c]>>} /\ procs' = procs \ {c} /\ pc' = [pc EXCEPT ![c] = "gone"]
            /\ UNCHANGED <<counter, lock, myid, leaked>>
-Next == \E c \in C : Allocate(c) \/ Spawn(c) \/ Check(c) \/ Append(c) \/ Exit(c)
+Next == \E c \in C : Allocate(c) \/ Spawn(c) \/ SpawnFails(c) \/ Check(c) \/ Append(c) \/ Exit(c)
 Spec == Init /\ [][Next]_vars
 
 NoSharedId == \A a, b \in live : a # b => a[2] # b[2]
